@@ -118,6 +118,9 @@ func DumpDB(db *kv.DB, ever map[string]bool) (d *Dump, pv any, stack string) {
 			if pv, ok := d.Vals[string(k)]; ok && !bytes.Equal(pv, v) {
 				d.Errs[string(k)] = "fold value differs from get value"
 			}
+			for i := range v {
+				v[i] = 0xEE // the callback owns v: overwriting it must not affect anything
+			}
 			return true
 		})
 		if ferr != nil {
@@ -477,6 +480,30 @@ func (s *Session) CheckGet(k []byte) bool {
 		if !bytes.Equal(v, want) {
 			s.fail("wrong-result", fmt.Sprintf("Get(%s) = %s; model has %s", keyStr(k), valStr(v), valStr(want)), "call", "Get", "kind", "value")
 			return false
+		}
+		if s.Canary && len(v) > 0 && s.Step%3 == 0 {
+			// the caller owns what Get returned: a second Get fills the first result with
+			// garbage and asks again - the answer must still be the stored value
+			var v2 []byte
+			pv, _ := Safe(func() { v2, err = s.DB.Get(s.key(k)) })
+			s.scribble()
+			if pv == nil && err == nil {
+				for i := range v2 {
+					v2[i] = 0xEE
+				}
+				var v3 []byte
+				pv, _ = Safe(func() { v3, err = s.DB.Get(s.key(k)) })
+				s.scribble()
+				s.Res.Add("gets_after_scribbling_a_returned_slice", 1)
+				if pv != nil || err != nil || !bytes.Equal(v3, want) {
+					s.fail("returned-slice-shared", fmt.Sprintf("Get(%s) after the caller overwrote the slice a previous Get had returned = %s err=%v; model has %s", keyStr(k), valStr(v3), err, valStr(want)), "call", "Get")
+					return false
+				}
+				if !bytes.Equal(v, want) {
+					s.fail("returned-slice-changed", fmt.Sprintf("the slice returned by Get(%s) changed when the result of a LATER Get was overwritten", keyStr(k)), "call", "Get")
+					return false
+				}
+			}
 		}
 	}
 	return true
